@@ -103,3 +103,35 @@ func VerifC13CodecTruncation() {
 	vndAssert(err != nil, "Commit.ReadFrom accepted a truncated encoding without an error")
 	vndObserve("cut", uint64(cut))
 }
+
+func init() { vndRegister("VerifC13LongCodecTruncation", VerifC13LongCodecTruncation) }
+
+// VerifC13LongCodecTruncation: a commit whose single update buffer is longer than 64 KiB (two
+// 40000-byte values, arbitrary bytes at their ends and middles), cut at positions around the
+// payload's start, the 64 KiB mark, the boundary between the two values and the end: ReadFrom
+// must report an error for each of these proper prefixes, and read the complete encoding back.
+func VerifC13LongCodecTruncation() {
+	b := NewBuffer(16)
+	b.Reset("col")
+	o1 := vndU32("off")
+	vndAssume(o1&(1<<chunkShift-1) != 1<<chunkShift-1) // both values in the block the commit is for
+	b.PutBytes(Put, o1, vLongBytes(40000))
+	b.PutBytes(Put, o1+1, vLongBytes(40000))
+	c := Commit{ID: 7, Chunk: Chunk(o1 >> chunkShift), Updates: []*Buffer{b}}
+	w := &VBuf{}
+	_, err := c.WriteTo(w)
+	vndAssert(err == nil, "WriteTo failed")
+	total := len(w.Data)
+	start := total - len(b.buffer) // first byte of the payload
+	cuts := [10]int{start, start + 1, start + 40000, start + 65535, start + 65536, start + 65537, total - 40000, total - 2, total - 1, total}
+	cut := cuts[vndChoice("cut", len(cuts))]
+	var dst Commit
+	_, err = dst.ReadFrom(&VBuf{Data: w.Data, HasCut: true, Cut: cut})
+	if cut < total {
+		vndAssert(err != nil, "Commit.ReadFrom accepted a truncated encoding of a long buffer without an error")
+	} else {
+		vndAssert(err == nil && len(dst.Updates) == 1 && len(dst.Updates[0].buffer) == len(b.buffer), "the complete encoding of a long buffer does not read back")
+	}
+	vndObserve("cut", uint64(cut))
+	vndObserveBool("err", err != nil)
+}
